@@ -7,6 +7,8 @@ Reference model: union-find over the edge list (never calls the library).
 """
 from __future__ import annotations
 
+import numpy as np
+
 from soundevent import data
 from soundevent.geometry import group_sound_events
 
@@ -147,6 +149,12 @@ def run_block(block, rec):
             if n <= PATTERN_NMAX[block.get("tier", "quick")] and n >= 1:
                 for pattern in PATTERNS[1:]:
                     rec.add(run_case({"n": n, "mask": mask, "geom": pattern}))
+                if n >= 2:
+                    # the comparison function answers with a numpy boolean / an int instead of a Python bool
+                    for ret in RETURNS[1:]:
+                        rec.add(run_case({"n": n, "mask": mask, "ret": ret}))
+                    # the last list element is an equal-valued deep copy of an earlier one (two list elements, one value)
+                    rec.add(run_twin_case({"n": n, "mask": mask, "twin": mask % (n - 1)}))
 
 
 def _cls(kind, **kw):
@@ -164,10 +172,12 @@ def run_case(case):
     edge_set = set(edges)
     calls = []
 
+    wrap = {"bool": bool, "np_bool": np.bool_, "int": int}[case.get("ret", "bool")]
+
     def compare(a, b):
         i, j = pos.get(getattr(a, "uuid", None), -1), pos.get(getattr(b, "uuid", None), -1)
         calls.append((i, j))
-        return ((i, j) if i < j else (j, i)) in edge_set
+        return wrap(((i, j) if i < j else (j, i)) in edge_set)
 
     expected = components(n, edges)
     try:
@@ -266,6 +276,49 @@ def run_case(case):
     return out
 
 
+RETURNS = ("bool", "np_bool", "int")
+_TWINS = {}
+
+
+def run_twin_case(case):
+    """n list elements of which the last is a deep copy of element `twin`; the graph is over list POSITIONS.  Judged on values
+    only (labels = uuid positions), so nothing depends on whether the library hands back the very same objects."""
+    out = Out(case)
+    n, mask, k = case["n"], case["mask"], case["twin"]
+    base = events()
+    if k not in _TWINS:
+        _TWINS[k] = base[k].model_copy(deep=True)
+    evs = list(base[:n - 1]) + [_TWINS[k]]
+    label = list(range(n - 1)) + [k]
+    node_by_id = {id(e): i for i, e in enumerate(evs)}
+    edges = graph_from_mask(n, mask)
+    edge_set = set(edges)
+
+    def compare(a, b):
+        i = node_by_id.get(id(a), _POS.get(getattr(a, "uuid", None), -1))
+        j = node_by_id.get(id(b), _POS.get(getattr(b, "uuid", None), -1))
+        return ((i, j) if i < j else (j, i)) in edge_set
+
+    expected = sorted(sorted(label[p] for p in c) for c in components(n, edges))
+    out.transitions = out.validated = 1
+    out.nontrivial = True
+    try:
+        result = group_sound_events(evs, compare)
+        got = sorted(sorted(_POS.get(se.uuid, -1) for se in s.sound_events) for s in result)
+    except Exception as e:  # noqa
+        out.fail("components", ["exception", type(e).__name__], expected, _cls("exception", exc=type(e).__name__, twin=True))
+        out.klass = "twin:exception"
+        return out
+    flat = sorted(p for g in got for p in g)
+    out.expect("partition", flat == sorted(label), got, expected, _cls("event_missing" if len(flat) < n else "event_repeated", twin=True))
+    out.expect("components", got == expected, got, expected, _cls("twin"), {"edges": [list(e) for e in edges]})
+    out.klass = "twin:%s" % ("ok" if not out.viol else "differs")
+    return out
+
+
 def replay_case(case):
+    if "twin" in case:
+        events()
+        return run_twin_case(case)
     events()
     return run_case(case)
